@@ -447,6 +447,24 @@ func (e *Exec) edgeState(fr *Frame, p, b *ssa.BasicBlock, ps *State) *State {
 
 // ---------- loops ----------
 
+// clauseInputsReady: every result_of / arg_of the clause mentions refers to a call already executed.
+func (e *Exec) clauseInputsReady(fr *Frame, cl Clause) bool {
+	for _, p := range cl.Params {
+		key := fmt.Sprintf("%s:%d", p.File, p.Off)
+		switch p.Kind {
+		case pkCallRes:
+			if _, ok := fr.callRes[key]; !ok {
+				return false
+			}
+		case pkCallArg:
+			if vs, ok := fr.callArgs[key]; !ok || p.Index >= len(vs) {
+				return false
+			}
+		}
+	}
+	return true
+}
+
 // evalInv evaluates a loop invariant; one written "since call K f" reads old() and before() at that snapshot.
 func (e *Exec) evalInv(fr *Frame, cl Clause, st *State) *Term {
 	if cl.SinceCallee != "" {
@@ -1152,6 +1170,16 @@ func (e *Exec) siteAsserts(fr *Frame, st *State, pos token.Pos, kind int) {
 					e.fail("assert %s: the 'since' call was not executed before the assertion", a.Clause.Label)
 				}
 				fr.oldOverride = snap
+			}
+			if !e.clauseInputsReady(fr, a.Clause) {
+				// result_of / arg_of of a call that has not run yet at this point (the code was reordered): the
+				// assertion cannot hold as written
+				fr.oldOverride = nil
+				e.note("assertion " + a.Clause.Label + " names a call that is not executed before it")
+				saved := st.reach
+				e.oblige(st, "assert", "assert:"+a.Clause.Label, e.c.False(), pos)
+				st.reach = saved
+				continue
 			}
 			t := e.evalClauseAt(fr, a.Clause, st, nil)
 			fr.oldOverride = nil
